@@ -175,5 +175,12 @@ Definition check (c : case) : bool :=
       subset present (marshal_keys d) &&
       subset (required_keys d) present &&
       subset consumed (hint_key :: decode_keys d) &&
-      subset (inter nonzero (decode_keys d)) consumed
+      subset (filter (fun k => negb (String.eqb k hint_key)) (inter nonzero (decode_keys d))) consumed
   end.
+
+(* ------------------------------------------------------------------ map-valued members
+   BlockMap and BlockItemFiles hand a Go map (items) to the JSON library; neither backend (sonic, jsoniter)
+   sorts map keys, so the member order of the "items" object is the map iteration order.  render lists the
+   members of a store in a given key order. *)
+Definition render (order : list string) (m : store) : list (string * value) :=
+  map (fun k => (k, get k m)) order.
